@@ -122,7 +122,7 @@ func cardQueryDoc(r *rt.Rand) string {
 	f.WriteString(`</A:filter>`)
 	lim := ""
 	if r.Chance(0.4) {
-		lim = fmt.Sprintf(`<A:limit><A:nresults>%d</A:nresults></A:limit>`, 1+r.Intn(3))
+		lim = fmt.Sprintf(`<A:limit><A:nresults>%s</A:nresults></A:limit>`, rt.Pick(r, []string{"1", "2", "3", "1", "2", "2147483647", "4294967296", "1099511627776", "4611686018427387904", "9223372036854775807", "18446744073709551615"}))
 	}
 	prop := `<D:prop><D:getetag/><A:address-data/></D:prop>`
 	if r.Chance(0.3) {
@@ -410,6 +410,7 @@ func GenC13(seed uint64, tier string) *Plan {
 			}
 			st.Faults = []Fault{{Seam: "req-body", At: at, Kind: rt.Pick(r, []string{"clean-eof", "clean-eof", "unexpected-eof", "custom-error", "cancel"})}}
 			st.Chunk = rt.Pick(r, []int{0, 1, -16, 7, 512})
+			st.Chunked = r.Chance(0.4)
 		case f == 2: // dependency fault
 			if cfg.Server == "webdav-local" {
 				st.Faults = []Fault{{Seam: "disk", At: r.Intn(8), Kind: rt.Pick(r, diskErrnos)}}
@@ -465,7 +466,11 @@ func GenC13(seed uint64, tier string) *Plan {
 					st.set("Depth", "1")
 				}
 				st.Chunk = rt.Pick(r, []int{0, 1, 7})
+				st.Chunked = r.Chance(0.4) && len(st.Body) > 0
 			}
+		}
+		if len(st.Body) > 0 && len(st.Faults) == 0 && st.Malformed == "" {
+			st.Chunked = r.Chance(0.25)
 		}
 		pl.Steps = append(pl.Steps, *st)
 	}
